@@ -237,8 +237,10 @@ def apply_op(R, g, op, chars):
         n = 1 + op['n'] % nc
         g.reduce(connected_subset(g, op['seed'], n))
     elif k == 'snap':
+        if any(c.num_layers <= 1 for c in g.columnlist): return g, None      # snapping may not remove a column's only layer
         g.snap_columns_to_layers(op.get('min', 1.0))
     elif k == 'snap_nearest':
+        if any(c.num_layers <= 1 for c in g.columnlist): return g, None
         g.snap_columns_to_nearest_layers()
     elif k == 'set_surface':
         c = g.columnlist[op['col'] % nc]
@@ -280,7 +282,7 @@ def apply_op(R, g, op, chars):
         th = op.get('thickness', 7.0)
         g.add_layer(mulgrids.layer(nm, bot.bottom - th, bot.bottom - 0.5 * th, bot.bottom))
     elif k == 'delete_layer':
-        if len(und) <= 1: return g, None
+        if len(und) <= 1 or any(c.num_layers <= 1 for c in g.columnlist): return g, None
         g.delete_layer(g.layerlist[-1].name)
     elif k == 'rename_layer':
         lay = und[op['lay'] % len(und)]
